@@ -64,6 +64,7 @@ def _layout(data):
         lay["pool_spans"] = []
     lay["zone_fields"] = [f for f in fields if f["id"] == 1]
     lay["idmap"] = simio.scan_id_map(data, fields, pool)
+    lay["nested"] = simio.scan_nested_counts(data, fields)
     lay["other_fields"] = [f for f in fields if f["id"] not in (0, 1)]
     b = {0, 1, 2, 3, 4, len(data), len(data) - 1}
     for f in fields:
@@ -147,6 +148,11 @@ def _gen_inflate(rng, fi, data, lay):
         # the length prefix of a string in the string pool (strings there are stored inline: length, then bytes)
         off, reg = rng.choice(lay["pool_spans"])[0], "inflate-pool-strlen"
         j = rng.choice([3, 4, 4, 4])
+        if j == 4 and rng.random() < 0.7:
+            # prefer places where the five-byte varint that results is still below the 2^31 cap, i.e. is *accepted* as a length
+            ok = [sp[0] for sp in lay["pool_spans"] if sp[0] + 4 < len(data) and data[sp[0] + 4] <= 7]
+            if ok:
+                off = rng.choice(ok)
         plan = [["sub", off + i, 0xFF] for i in range(j) if off + i < len(data) and data[off + i] != 0xFF]
         if j == 3 and off + 3 < len(data):
             plan.append(["sub", off + 3, rng.choice([0x7F, 0x07, 0x01])])
@@ -275,6 +281,27 @@ def gen_corruption(seed):
     fi = 0 if rng.random() < 0.6 else 1
     data, lay = fs[fi], _LAYOUT[fi]
     c0 = rng.random()
+    if 0.29 <= c0 < 0.33 and lay["nested"]:
+        # a count nested inside a metadata record: make it zero (over-long, so that the record keeps its length and everything
+        # after it stays aligned), or huge, or off by one
+        e = rng.choice(lay["nested"])
+        span = e["items_end"] - e["off"]
+        kind = rng.choice(["zero-aligned", "zero-aligned", "inflate", "plus1", "minus1"])
+        plan = []
+        if kind == "zero-aligned" and 2 <= span <= 4:
+            want = [0x80] * (span - 1) + [0]
+            plan = [["sub", e["off"] + i, b] for i, b in enumerate(want) if data[e["off"] + i] != b]
+        elif kind == "inflate":
+            plan = [["sub", e["off"] + i, 0xFF] for i in range(rng.choice([2, 3, 4])) if data[e["off"] + i] != 0xFF]
+        elif kind == "plus1":
+            plan = [["sub", e["off"], (data[e["off"]] + 1) & 0x7F]]
+        else:
+            plan = [["sub", e["off"], (data[e["off"]] - 1) & 0x7F]]
+        if 1 <= len(plan) <= 4:
+            return {
+                "prop": PROP, "seed": seed, "mode": "corrupt", "file": fi, "plan": plan, "regions": ["nested-count-" + kind] * len(plan),
+                "all_ids": False, "extra_ids": rng.randrange(0, 3), "ids_seed": rng.randrange(1 << 30), "tracemalloc": False,
+            }  # fmt: skip
     if 0.22 <= c0 < 0.29:
         # over-long encoding of a small number: a run of 0x80 continuation bytes and then 0, 1 or 2, written over k bytes.
         # Where those k bytes were "a count and the (k-1) bytes it announced", everything after stays aligned and the
